@@ -192,8 +192,10 @@ def type_src(t, ns) -> str:
     raise ValueError(t)
 
 
-def build(spec, hash_order: Optional[dict[str, int]] = None) -> Bundle:
-    modname = f"verif_grammar_{next(_counter)}"
+def build(spec, hash_order: Optional[dict[str, int]] = None, modname: Optional[str] = None) -> Bundle:
+    # modname: declare the classes under a given module name (a grammar factory called twice, a notebook cell run
+    # again: new class objects with the module and qualified names of earlier ones)
+    modname = modname or f"verif_grammar_{next(_counter)}"
     mod = types.ModuleType(modname)
     sys.modules[modname] = mod
     classes: dict[str, type] = {}
